@@ -117,22 +117,22 @@ NOT_CLAIMED = {}
 
 # what later sessions added to each check (appended to the claim text)
 ADDENDA = {
-    'C01': ' Also: the control-state graph of the automaton (MC_ParserGraph: one replay vector per transition, inputs up to 35-44 characters), every scalar in 15 syntactic contexts (ctx sweeps), long inputs of multi-byte characters across the 64 KiB marks and long byte inputs with one ill-formed sequence (MC_NestBytes), decided errors extended by every token.',
+    'C01': ' Also: the control-state graph of the automaton (MC_ParserGraph: one replay vector per transition, inputs up to 35-44 characters), every scalar in 15 syntactic contexts (ctx sweeps), long inputs of multi-byte characters across the 64 KiB marks and long byte inputs with one ill-formed sequence (MC_NestBytes), decided errors extended by every token. The option constructors (Options::strict / default / flexible) are routes chosen by the specification record.',
     'C02': ' Also: the control-state graph vectors, lookups on parsed objects through every way of consuming the lookup iterators and from another thread, several strings / keys per document under the lenient options.',
     'C03': ' Also: the nesting / length families run in an optimised and an unoptimised build, the traversal is consumed every way (count, size_hint, collect, fold, last), a re-entrant input iterator, iterators announcing an enormous length, panics on the exhaustive sweeps count as violations.',
     'C05': ' Also: positions with character lengths reported in UTF-16 bytes / characters / UTF-32 bytes (translated specification outcome), byte positions after every scalar (ctx sweeps, string and slice entry points), the CodeMap container operations (clone_from, iteration).',
     'C06': ' Also: every query iterator consumed by every provided method (iter_routes), queries from another thread, recorded histories with grow-distinct / drain phases (table growth and shrinking).',
-    'C07': ' Also: error offsets under other character-length transports (must be character boundaries of the input), every scalar in 15 syntactic contexts, long byte inputs.',
-    'C08': ' Also: 20-character pads + every scalar through String::from / to_string, an escape at every position 0..300 of a long string, compact events of the print recorder (values with 66+ containers printed after an expanded print on the same thread, prints into failing sinks).',
+    'C07': ' Also: error offsets under other character-length transports (must be character boundaries of the input), every scalar in 15 syntactic contexts, long byte inputs. A reported surrogate span must satisfy JsonParser!SpanInside (contained in the offending escape(s) and starting at a position of it). Error texts / accessors / sources: Messages.tla (extension aspect X02).',
+    'C08': ' Also: 20-character pads + every scalar through String::from / to_string, an escape at every position 0..300 of a long string, compact events of the print recorder (values with 66+ containers printed after an expanded print on the same thread, prints into failing sinks). The compact preset constructor is checked field by field against the specification record (Options::compact() = all-zero record), compact_print() = print_with(Options::compact()); Display under formatter flags.',
     'C09': ' Also: positional-notation numbers of 40-1200 digits around ties, 15-20 digit bare integers, keys sharing a high surrogate, minimal escaping of every scalar.',
     'C10': ' Also: the laws on values with repeated keys (incl. 70-member objects), canonicalize - update through the object API - canonicalize on the same instance, number certificates (keeps its double value).',
-    'C11': ' Also: MC_NavValues (every value up to a shape bound printed by the printer specification), navigation in UTF-16 coordinates, every mapped iterator and the traversal consumed by every provided method.',
+    'C11': ' Also: MC_NavValues (every value up to a shape bound printed by the printer specification), navigation in UTF-16 coordinates, every mapped iterator and the traversal consumed by every provided method. The object-side traits (TryFromJsonObject, provided method and Box impl) at the root and at every nested offset.',
     'C12': ' Also: several strings / keys per document, strings beyond the inline capacity, byte trees under the lenient options, error class (surrogate or not) under lenient options.',
-    'C13': ' Also: the width attributed to every scalar (width sweeps), indentation of 31-130 columns, spacing fields up to 128, limits within a few columns of the real width, strings of 30-300 bytes, prints into failing sinks, user containers printed through the contextual layer.',
+    'C13': ' Also: the width attributed to every scalar (width sweeps), indentation of 31-130 columns, spacing fields up to 128, limits within a few columns of the real width, strings of 30-300 bytes, prints into failing sinks, user containers printed through the contextual layer. Values annotated with locspan::Meta / Stripped, the public two-phase interface (pre_compute_size + fmt_with_size), HashSet<T> through the contextual layer, preset constructors vs preset methods (inline never breaks a line).',
     'C14': ' Also: an observed twin (hashed / compared / cloned after every step), clone_from into permuted targets, domains of number and string spellings whose orders disagree, obs events in recorded histories.',
-    'C15': ' Also: the container types own impls, operands built on another thread or brought in by clone_from, objects of 64-100 entries, a key occurring 66-80 times.',
-    'C16': ' Also: a large datum (300-element sequences and maps), newtype structs around sequences / tuples / options / maps, integer keys by digit count, failing deserializations before every event.',
-    'C17': ' Also: deserialize_in_place into existing values, zero spellings, the number-token key at any position, failing deserializations before every event.',
+    'C15': ' Also: the container types own impls, operands built on another thread or brought in by clone_from, objects of 64-100 entries, a key occurring 66-80 times. locspan::Meta-annotated values and vectors of them.',
+    'C16': ' Also: a large datum (300-element sequences and maps), newtype structs around sequences / tuples / options / maps, integer keys by digit count, failing deserializations before every event. Derived types with skipped fields (skip_serializing_if on struct and struct-variant fields).',
+    'C17': ' Also: deserialize_in_place into existing values, zero spellings, the number-token key at any position, failing deserializations before every event. The Serialize / Deserialize impls of Object itself, IntoDeserializer for Value / Object, Box targets; sizes announced to visitors (extension aspect X03).',
     'C18': ' Also: serde_json numbers parsed from text in every spelling, numbers with 1100+ fraction digits, the recorder repeated in an unoptimised build (overflow checks).',
     'C19': ' Also: float literals incl. doubles that are exact single-precision values and zeros of both signs, key / value expressions drawing from a shared counter (evaluation in document order).',
     'C20': ' Also: nth / nth_back steps in the iterator machine, consumers (collect, rev, count, last, min, max, fold, rfold), nth / skip with 2^32 and usize::MAX, format specifications, renderings into failing sinks, and the accessor layer (JsonAccess) on every small value.',
